@@ -196,6 +196,7 @@ func (i *interpreter) resetPath() {
 	i.globals = map[*ssa.Global]*value{}
 	i.inited = map[*ssa.Package]bool{}
 	i.pools = map[*value][]value{}
+	i.regexes = map[*value]*regexHandle{}
 	i.depth = 0
 	i.chanSeq = 0
 	i.nowHook = nil
